@@ -681,6 +681,33 @@ impl Exec {
         }
     }
 
+    /// Run all threads except `skip` under the strategy for at most `steps` steps.
+    pub fn run_excluding(&self, strat: &mut Strategy, steps: u64, skip: usize) -> u64 {
+        let mut n = 0;
+        while n < steps {
+            let (runnable, all_done) = self.settle_wait();
+            if all_done {
+                break;
+            }
+            let r: Vec<usize> = runnable.into_iter().filter(|t| *t != skip).collect();
+            if r.is_empty() {
+                break;
+            }
+            let ns = self.m.lock().unwrap().nsteps;
+            let t = strat.pick(&r, ns);
+            self.grant(t);
+            n += 1;
+        }
+        self.settle_wait();
+        n
+    }
+
+    /// (steps, lock events, park events, spin events) of thread t
+    pub fn counters(&self, t: usize) -> (u64, u64, u64, u64) {
+        let g = self.m.lock().unwrap();
+        (g.thr[t].steps, g.thr[t].lock_events, g.thr[t].park_events, g.thr[t].spin_events)
+    }
+
     /// Run only thread `t` until it is done, blocked, or `max` steps were taken. Returns steps taken.
     pub fn run_solo(&self, t: usize, max: u64) -> u64 {
         let mut n = 0;
